@@ -38,7 +38,10 @@ Proof. intros a os key ubad s. exact (remove_sync_exact s key ubad (reach_inv a 
 Print Assumptions C08_sync_remove_exact.
 
 (* The parent-chain walk of storage (unbounded loop in Go, fuel in the model) never runs out of fuel and
-   never meets a missing parent in a reachable state, and what it returns is the chain nearest parent first. *)
+   never meets a missing parent in a reachable state, and what it returns is the chain nearest parent first —
+   also when commits rebase snapshots onto younger parents (snapshots.WithParent): the metadata stays topologically
+   ordered. (Outside the model's domain: WithParent naming the commit's own name, for which the real storage
+   creates a self-parented snapshot and this walk never returns: finding C08-withparent-own-name-self-parent.) *)
 Theorem C08_parent_chain_total :
   forall a os p i, let s := exec (init a) os in
     lookup (meta s) p = Some i ->
@@ -54,7 +57,13 @@ Print Assumptions C08_parent_chain_total.
      - or mounts are returned: only when the backend Mount failed; key is then an ordinary active snapshot with
        exactly the caller's labels (so not marked remote unless the caller passed the reserved label itself),
        no backend mount, and the mount returned is writable on its own directory;
-     - or an error: nothing was created (metadata unchanged), or the fallback's chain is unavailable.
+     - or an error: nothing was created (metadata unchanged), or the fallback's chain is unavailable, or — the
+       backend Mount having succeeded — the internal commit failed with something other than AlreadyExists (empty
+       target ref, WithParent naming a missing / uncommitted / contradicting parent): then there is NO fallback and
+       the key stays behind as an active, not-remote snapshot with exactly one live backend mount (the code's
+       "prohibit to use this key again").
+   Labels: metadata keeps the caller's label map minus empty-valued entries ([norm], boltutil.WriteLabels), keys
+   outside the containerd.io/snapshot namespace included; the target gets that plus the remote mark.
    FULL STATEMENT (false of the code, see C08_prepare_target_outcome_refuted): the same without the two hypotheses
    [t <> key] and [t does not name an existing snapshot that is not committed]. *)
 Theorem C08_prepare_target_outcome_partial :
@@ -239,6 +248,22 @@ Example C08_conc_nonvacuous :
   frames cs = [(2, FChain (mkSnap 2 KActive [1]) (Some 2) [])] /\
   rets cs = [(1, ROk); (0, RTargetExists); (0, RMounts (MOverlay (Some 2) [1])); (0, RTargetExists)] /\
   map fst (mounts (base cs)) = [3; 1].
+Proof. vm_compute. repeat split. Qed.
+
+(* Non-vacuity of the commit-failure outcome and of rebase: (1) empty target ref: Mount succeeds, the internal commit
+   fails, Prepare returns the error, k0 stays active with its mount and with the non-empty labels only;
+   (2) Commit with WithParent rebases k0 (id 1, created first) onto the YOUNGER remote snapshot k2 (id 2): the
+   lower directories of a snapshot on top of it are [1; 2] — nearest parent first although ids are not ordered. *)
+Example C08_commit_failure_and_rebase :
+  (let s := fst (step (init false) (Prepare 0 None (mkL (Some 1000) false 1 2 None) true [])) in
+   snd (step (init false) (Prepare 0 None (mkL (Some 1000) false 1 2 None) true [])) = RErr EOther /\
+   lookup (meta s) 0 = Some (mkI 1 KActive None (mkL None false 0 2 None)) /\ mount_count s 1 = 1) /\
+  (let s := exec (init false) [Prepare 0 None no_labels true []; Prepare 1 None (mkL (Some 2) false 0 0 None) true [];
+                               Commit 3 0 (mkL None false 0 0 (Some 2)); Prepare 4 (Some 3) no_labels true []] in
+   snd (step s (Mounts 4 [])) = RMounts (MOverlay (Some 3) [1; 2]) /\
+   snd (step s (Commit 5 4 (mkL None false 0 0 (Some 2)))) = RErr EInvalid /\
+   snd (step s (Commit 5 4 (mkL None false 0 0 (Some 9)))) = RErr EInvalid /\
+   snd (step s (Prepare 6 None (mkL (Some 7) false 0 0 (Some 9)) true [])) = RErr ENotFound).
 Proof. vm_compute. repeat split. Qed.
 
 (* Non-vacuity: a remote chain k1 <- k2 built by two Prepare-with-target calls, an active snapshot on top:
